@@ -243,7 +243,7 @@ class ExcelCompiler:
                 existing_hash != self._compute_file_md5_digest(filename))
 
     @classmethod
-    def _from_text(cls, filename, is_json=False):
+    def _from_text(cls, filename, is_json=False, plugins=None):
         """deserialize from a json/yaml file"""
 
         if not is_json:
@@ -257,7 +257,8 @@ class ExcelCompiler:
             data = YAML().load(f)
 
         excel = _CompiledImporter(filename, data)
-        excel_compiler = cls(excel=excel, cycles=data.pop('cycles', False))
+        excel_compiler = cls(excel=excel, plugins=plugins,
+                             cycles=data.pop('cycles', False))
         excel.compiler = excel_compiler
 
         def add_line_numbers(cell_addr, line_number):
@@ -355,7 +356,8 @@ class ExcelCompiler:
                 filename += '.' + pickle_extension
 
             if text_changed or not os.path.exists(filename):
-                excel_compiler = self._from_text(text_name, is_json=is_json)
+                excel_compiler = self._from_text(
+                    text_name, is_json=is_json, plugins=self._plugin_modules)
                 if non_pickle_extension not in file_types:
                     os.unlink(text_name)
 
@@ -385,7 +387,7 @@ class ExcelCompiler:
                 excel_compiler = pickle.load(f)
         else:
             excel_compiler = cls._from_text(
-                filename, is_json=extension == 'json')
+                filename, is_json=extension == 'json', plugins=plugins)
 
         excel_compiler.excel = _CompiledImporter('', {
             'filename': excel_compiler.filename,
